@@ -370,6 +370,12 @@ func (eng *Engine) globalWriters(pkgPrefixes []string) map[string][]string {
 						if g = rootGlobalContents(x.Call.Args[0], 0); g != nil {
 							contents = true
 						}
+					} else if c := x.Call.StaticCallee(); c != nil && len(x.Call.Args) > 0 {
+						// an atomic update of a package-level variable (directly, or through
+						// a method that updates its receiver atomically) is a write
+						if gg := rootGlobal(x.Call.Args[0]); gg != nil && eng.atomicallyWritesParam0(c, 0) {
+							g = gg
+						}
 					}
 				}
 				if g == nil {
@@ -537,7 +543,7 @@ func (eng *Engine) classifyMapRange(fn *ssa.Function, rng *ssa.Range) MapRangeSi
 							// Mem_* are slice-element writes; in the callees met here they go to
 							// buffers the callee chain itself allocated or was handed for the
 							// duration of the call (assumption recorded in the obligation text)
-							if !(strings.HasPrefix(v, "MapV_") || strings.HasPrefix(v, "MapH_") || strings.HasPrefix(v, "Mem_")) {
+							if !(v == "CLK" || strings.HasPrefix(v, "MapV_") || strings.HasPrefix(v, "MapH_") || strings.HasPrefix(v, "Mem_")) {
 								onlyKeyed = false
 							}
 						}
@@ -678,6 +684,9 @@ func (eng *Engine) collectedThenSorted(fn *ssa.Function, li *loopInfo, appends [
 // same function (the field is only initialised, never reassigned).
 func (eng *Engine) checkImmutable(im *ImmutableSpec) FrameResult {
 	res := FrameResult{Name: "frame/immutable(" + im.Sel + ")", Props: im.Props, Pos: im.Pos}
+	if strings.HasPrefix(im.Sel, "[]") {
+		return eng.checkImmutableElems(im, res)
+	}
 	i := strings.LastIndex(im.Sel, ".")
 	st := eng.lookupType(im.PkgPath, im.Sel[:i])
 	if st == nil {
@@ -715,7 +724,7 @@ func (eng *Engine) checkImmutable(im *ImmutableSpec) FrameResult {
 						case *ssa.Store:
 							if y.Addr == x {
 								n++
-								if !isAllocBased(x.X) {
+								if !isAllocBased(x.X) && !eng.freshBase(x.X, 0) {
 									bad = append(bad, targetName(fn, im.PkgPath))
 								}
 							}
@@ -725,7 +734,7 @@ func (eng *Engine) checkImmutable(im *ImmutableSpec) FrameResult {
 						}
 					}
 				case *ssa.Store:
-					if pt, ok := x.Addr.Type().Underlying().(*types.Pointer); ok && sameStruct(pt.Elem(), st) && !isAllocBased(x.Addr) {
+					if pt, ok := x.Addr.Type().Underlying().(*types.Pointer); ok && sameStruct(pt.Elem(), st) && !isAllocBased(x.Addr) && !eng.freshBase(x.Addr, 0) {
 						bad = append(bad, "whole-struct-store-in:"+targetName(fn, im.PkgPath))
 					}
 				}
@@ -774,4 +783,134 @@ func rootGlobalContents(v ssa.Value, depth int) *ssa.Global {
 		return rootGlobalContents(x.X, depth+1)
 	}
 	return nil
+}
+
+// checkImmutableElems: `immutable []*T`: every store into an element of a
+// slice of *T targets storage the storing function (or a constructor it
+// called) allocated; the remaining in-place writers are the named exceptions.
+func (eng *Engine) checkImmutableElems(im *ImmutableSpec, res FrameResult) FrameResult {
+	tname := strings.TrimPrefix(strings.TrimPrefix(im.Sel, "[]"), "*")
+	st := eng.lookupType(im.PkgPath, tname)
+	if st == nil {
+		res.Detail = "no such type (contract target changed)"
+		return res
+	}
+	isElem := func(t types.Type) bool {
+		sl, ok := t.Underlying().(*types.Slice)
+		if !ok {
+			return false
+		}
+		pt, ok := sl.Elem().Underlying().(*types.Pointer)
+		return ok && sameStruct(pt.Elem(), st)
+	}
+	var bad []string
+	n := 0
+	for _, fn := range eng.repoFuncs() {
+		for _, b := range fn.Blocks {
+			for _, in := range b.Instrs {
+				switch x := in.(type) {
+				case *ssa.Store:
+					ia, ok := x.Addr.(*ssa.IndexAddr)
+					if !ok || !isElem(ia.X.Type()) {
+						continue
+					}
+					n++
+					if !eng.freshBase(ia.X, 0) {
+						bad = append(bad, targetName(fn, im.PkgPath))
+					}
+				case *ssa.Call:
+					// copy(dst, src) and append(dst, ...) write dst's storage
+					if bi, ok := x.Call.Value.(*ssa.Builtin); ok && len(x.Call.Args) > 0 && isElem(x.Call.Args[0].Type()) {
+						switch bi.Name() {
+						case "copy":
+							n++
+							if !eng.freshBase(x.Call.Args[0], 0) {
+								bad = append(bad, targetName(fn, im.PkgPath))
+							}
+						case "append":
+							// may write into the spare capacity of its first argument
+							n++
+							if !isNilConst(x.Call.Args[0]) && !eng.freshBase(x.Call.Args[0], 0) && !clampedArg(x.Call.Args[0]) {
+								bad = append(bad, "append-in:"+targetName(fn, im.PkgPath))
+							}
+						}
+					}
+				}
+			}
+		}
+	}
+	var kept []string
+	for _, b := range bad {
+		if !hasString(im.Except, b) {
+			kept = append(kept, b)
+		}
+	}
+	bad = kept
+	sort.Strings(bad)
+	if len(bad) == 0 {
+		res.OK = true
+		res.Detail = fmt.Sprintf("%d element writes, all to storage allocated in the writing function (hand-inspected exceptions: %v)", n, im.Except)
+	} else {
+		res.Detail = "written in place in: " + strings.Join(uniq(bad), ", ")
+	}
+	return res
+}
+
+// clampedArg: the slice is a full (three-index) slice expression or the result
+// of a function named clampCap*: an append to it cannot write shared storage.
+func clampedArg(v ssa.Value) bool {
+	switch x := v.(type) {
+	case *ssa.Slice:
+		return x.Max != nil
+	case *ssa.Call:
+		if c := x.Call.StaticCallee(); c != nil && strings.HasPrefix(c.Name(), "clampCap") {
+			return true
+		}
+	}
+	return false
+}
+
+// atomicallyWritesParam0: fn is a mutating sync/atomic operation, or a repository
+// function that hands (a field of) its first parameter to one.
+func (eng *Engine) atomicallyWritesParam0(fn *ssa.Function, depth int) bool {
+	if fn == nil || depth > 3 {
+		return false
+	}
+	if obj := fn.Object(); obj != nil && obj.Pkg() != nil && obj.Pkg().Path() == "sync/atomic" {
+		n := fn.Name()
+		for _, p := range []string{"Add", "Store", "Swap", "CompareAndSwap", "And", "Or"} {
+			if strings.HasPrefix(n, p) {
+				return true
+			}
+		}
+		return false
+	}
+	if !isRepoFunc(fn) || len(fn.Params) == 0 {
+		return false
+	}
+	p0 := fn.Params[0]
+	for _, b := range fn.Blocks {
+		for _, in := range b.Instrs {
+			call, ok := in.(*ssa.Call)
+			if !ok || len(call.Call.Args) == 0 {
+				continue
+			}
+			c := call.Call.StaticCallee()
+			if c == nil {
+				continue
+			}
+			a := call.Call.Args[0]
+			for {
+				if fa, ok := a.(*ssa.FieldAddr); ok {
+					a = fa.X
+					continue
+				}
+				break
+			}
+			if a == p0 && eng.atomicallyWritesParam0(c, depth+1) {
+				return true
+			}
+		}
+	}
+	return false
 }
